@@ -9,7 +9,7 @@
 (* alone; the invariants say that the algorithm implements the abstract    *)
 (* DAG (C10, C11) for every operation sequence within the bounds.          *)
 (***************************************************************************)
-EXTENDS DagCore, Json
+EXTENDS DagCore, DagAlgo, Json
 
 CONSTANTS MaxNodes,        \* nodes ever created
           MaxOps,          \* operations per behaviour
@@ -36,38 +36,6 @@ Contains(s, v) == v \in ARange(s)
 GAddNode(G) ==
   LET n == G.created + 1 IN
   [G EXCEPT !.created = n, !.live = @ \cup {n}, !.lastOrder = @ + 1, !.order = (n :> (G.lastOrder + 1)) @@ @]
-
-\* ---- dfs_forward (lib.rs:921): nodes reachable from `start` through children of rank < ub; cycle iff a child has rank ub
-RECURSIVE Fwd(_, _, _, _)
-Fwd(G, frontier, seen, ub) ==
-  IF frontier = {} THEN seen
-  ELSE LET nxt == {c \in UNION {ARange(G.kids[n]) : n \in frontier} : G.order[c] < ub} \ seen
-       IN Fwd(G, nxt, seen \cup nxt, ub)
-FwdSet(G, start, ub) == Fwd(G, {start}, {start}, ub)
-FwdCycle(G, F, ub) == \E n \in F : \E c \in ARange(G.kids[n]) : G.order[c] = ub
-
-\* ---- dfs_backward (lib.rs:952): nodes reaching `start` through parents of rank > lb that were not visited forward
-RECURSIVE Bwd(_, _, _, _, _)
-Bwd(G, frontier, seen, lb, visited) ==
-  IF frontier = {} THEN seen
-  ELSE LET nxt == {p \in UNION {ARange(G.pars[n]) : n \in frontier} : G.order[p] > lb /\ p \notin visited} \ seen
-       IN Bwd(G, nxt, seen \cup nxt, lb, visited)
-BwdSet(G, start, lb, visited) == Bwd(G, {start}, {start}, lb, visited)
-
-RECURSIVE SortByOrder(_, _)
-SortByOrder(G, S) ==
-  IF S = {} THEN <<>>
-  ELSE LET n == CHOOSE x \in S : \A y \in S : G.order[x] <= G.order[y] IN <<n>> \o SortByOrder(G, S \ {n})
-RECURSIVE SortNat(_)
-SortNat(S) == IF S = {} THEN <<>> ELSE LET x == CHOOSE x \in S : \A y \in S : x <= y IN <<x>> \o SortNat(S \ {x})
-
-\* ---- reorder_nodes (lib.rs:984): backward set (sorted) then forward set (sorted) receive the sorted ranks
-Reorder(G, F, B) ==
-  LET keys == SortByOrder(G, B) \o SortByOrder(G, F)
-      ranks == SortNat({G.order[n] : n \in B \cup F})
-  IN [G EXCEPT !.order = [n \in DOMAIN G.order |->
-                             IF \E i \in DOMAIN keys : keys[i] = n
-                             THEN ranks[CHOOSE i \in DOMAIN keys : keys[i] = n] ELSE G.order[n]]]
 
 \* ---- add_edge (lib.rs:381)
 GAddEdge(G, a, b, d) ==
